@@ -674,7 +674,8 @@ class C31(Check):
 
     def excluded_by_construction(self, case):
         syms = normalise(case)
-        if self._internal_domain(case, syms):
+        from vlib.core import still_known
+        if self._internal_domain(case, syms) and still_known("C31", KNOWN_INTERNAL):
             return KNOWN_INTERNAL
         if self._prot_domain(syms):
             return KNOWN_PROT
